@@ -238,3 +238,5 @@ b("pcgrad-maintained-products-wrong-row", ["C18"], "@seed", _os.path.join(_PD, "
 b("pcgrad-maintained-products-wrong-start", ["C18"], "@seed", _os.path.join(_PD, "pcgrad-maintained-products-wrong-start.diff"), "", "the products start from |G[i]|: conflicts with the original row are never seen")
 # Jacobian rows written into a pre-allocated buffer block by block (see seeded_keep/C07-r9K1): the twin that writes every block at row 0
 b("jac-row-buffer-always-at-zero", ["C15"], "@seed", _os.path.join(_PD, "jac-row-buffer-always-at-zero.diff"), "", "later blocks overwrite the first one and the remaining rows are uninitialised memory")
+# GradDrop without a loop, the leak blended in with torch.lerp (see seeded/C18-r9C for the reversed arguments): the correct spelling is silent
+k("graddrop-vectorised-lerp", ["C18", "C11", "C10"], "@seed", _os.path.join(_PD, "graddrop-vectorised-lerp.diff"), "", "lerp(mask, 1, leak) = mask + leak * (1 - mask): kept entries weigh 1, dropped ones leak_i")
